@@ -37,13 +37,16 @@ def check(case):
             model = procs.run(c)[0]
         except (ValueError, ZeroDivisionError, FloatingPointError):
             continue
+        except Exception:
+            if c.get('P1') == 0.0: continue          # degenerate fits of an impermeable membrane may fail in other ways: still "raises"
+            raise
         for k in range(len(model.feed_mass)):
             m, T = model.feed_mass[k], model.feed_temperature[k]
             if not (m > 0 and math.isfinite(m)): fails.append("dt=%r: reported feed_mass[%d] = %r" % (c.get('dt'), k, m))
             if not (T > 0 and math.isfinite(T)): fails.append("dt=%r: reported feed_temperature[%d] = %r" % (c.get('dt'), k, T))
             for nm in ('feed_compositions', 'permeate_composition'):
                 p = getattr(model, nm)[k].p
-                if not (0 <= p <= 1): fails.append("%s[%d].p = %r" % (nm, k, p))
+                if not (0 <= p <= 1): fails.append("%s: reported %s[%d].p = %r is not a fraction in [0, 1]" % (c.get('func'), nm, k, p))
             for v in tuple(model.partial_fluxes[k]) + (model.feed_evaporation_heat[k], model.permeate_condensation_heat[k]) + tuple(q.value for q in model.permeances[k]):
                 if v is not None and not math.isfinite(v): fails.append("dt=%r: non-finite flux/heat/permeance reported at step %d: %r (T=%r)" % (c.get('dt'), k, v, T))
         if fails: break
@@ -57,6 +60,9 @@ def corpus(seed, n):
         c['dt'] = 10 ** rng.uniform(0, 2.5); c['A'] = 10 ** rng.uniform(-0.5, 1); c['N'] = rng.randint(3, 6); out.append(c)
     for f in ('ideal_non_isothermal_process', 'non_ideal_non_isothermal_process'):
         out.append(dict(func=f, coarse=True, mode='vacuum', curves='one'))
+        # impermeable membrane: fluxes (0, 0), permeate fraction 0/0 - must raise, never report a NaN fraction
+        out.append(dict(func=f, mode='vacuum', curves='one', P1=0.0, P2=0.0, N=3, dt=0.2))
+        out.append(dict(func=f.replace('non_isothermal', 'isothermal'), mode='temperature', curves='one', P1=0.0, P2=0.0, N=2, dt=0.2))
         for mode in ('vacuum', 'pressure', 'temperature'):
             out.append(dict(func=f, blowup=True, mode=mode, curves='one', builtin='H2O_EtOH', A=0.4, m0=12.0, T0=333.15, x0=0.94, pp=0.6, Tp=293.15, P1=0.036, P2=0.00003, Ea1=19944.0, Ea2=110806.0,
                             points=(100 if n < 40 else 400) if f.startswith('ideal') else (20 if n < 40 else 80)))
